@@ -13,7 +13,7 @@ LEVEL = "exploration"
 DECIDING = ["print_snapshots", "line_events"]
 MIN_DECIDED_RATIO = 0.9
 RULE = (
-    "random templates of 1-6 chunks: text (letters, digits, spaces, punctuation except $ and \"), references "
+    "random templates of 1-6 chunks: text (letters, digits, spaces, punctuation except $ and \", a backslash inside or at the very end in 15%), references "
     "($.variables.x[.key|.index|.length], $.headers.name|index|'quoted name', $.metadata.key, $.csvpath.field) and the '..' escape, in "
     "stratified arrangements (ref at start/end, ref-sep1-ref, ref-sepN-ref, ref-ref adjacent, ref + escaped dot, text only); each template is run "
     "as print / print.onmatch / print.once over a small file. A text chunk that directly follows a reference starts with a character that "
@@ -227,6 +227,14 @@ def make_case(seed, shard, i):
     # state (fail()) before the print under test: "the value current at that point of that line"
     prelude = r.random() < 0.3
     no_default = r.random() < 0.25
+    if r.random() < 0.15:
+        # a backslash is punctuation like any other: inside a text chunk, or as the very last character of the string
+        # (never straight after a reference name, where it is not a name terminator)
+        texts = [c for c in chunks if c[0] == "text" and len(c[1]) >= 1]
+        if texts:
+            c = texts[-1] if r.random() < 0.6 else r.choice(texts)
+            k = len(c[1]) if (c is chunks[-1] and r.random() < 0.7) else r.randint(1, len(c[1]))
+            c[1] = c[1][:k] + "\\" + c[1][k:]
     return {"no_default": no_default, "chunks": chunks, "arr": arr, "qual": qual, "rows": rows, "gate": gate, "target": target, "prelude": prelude}
 
 
